@@ -7,3 +7,4 @@ import LettreVerif.Props.C05
 import LettreVerif.Props.C14
 import LettreVerif.Props.C06
 import LettreVerif.Props.C20
+import LettreVerif.Props.C18
